@@ -199,7 +199,7 @@ pub fn gen_c06(out: &mut Out, rng: &mut Rng, thorough: bool) {
                     }
                     let raw = rng.bool();
                     let req = request_with_code(rng, req_fc, raw);
-                    let slave = rng.u8();
+                    let slave = rng.unit();
                     let pdu = if rsp_code < 0x80 {
                         response_pdu_with_code(rng, rsp_code, kind == "rtu")
                     } else {
@@ -260,7 +260,7 @@ pub fn gen_c06(out: &mut Out, rng: &mut Rng, thorough: bool) {
         let n = rng.range(0, 4);
         for step in 0..=n {
             if rng.chance(1, 3) {
-                unit = rng.u8();
+                unit = rng.unit();
                 line.push_str(&format!(" | slave {}", hex8(unit)));
             }
             let fc = if kind == "rtu" { *rng.pick(RTU_RSP_CODES) } else { rng.u8() & 0x7F };
@@ -300,7 +300,7 @@ pub fn gen_c06(out: &mut Out, rng: &mut Rng, thorough: bool) {
 fn gen_c06_after_partial(out: &mut Out, rng: &mut Rng, thorough: bool) {
     for i in 0..(if thorough { 6000 } else { 600 }) {
         let kind = if i % 4 == 3 { "rtu" } else { "tcp" };
-        let unit = rng.u8();
+        let unit = rng.unit();
         let n = rng.range(1, 10);
         let pdu_of = |rng: &mut Rng| spec::response_bytes(&Response::ReadHoldingRegisters(rng.words(n))).unwrap();
         // the fragment: header of call #2 (tid 1, same unit), cut anywhere from the complete
@@ -397,7 +397,7 @@ pub fn gen_c10(out: &mut Out, rng: &mut Rng, thorough: bool) {
         // the long stretches are plain calls; every so often something else happens
         match if i % 64 == 0 { rng.below(8) } else { 7 } {
             0 => {
-                unit = rng.u8();
+                unit = rng.unit();
                 line.push_str(&format!(" | slave {}", hex8(unit)));
                 line.push_str(" | call RSI r=e");
             }
@@ -638,7 +638,7 @@ pub fn gen_c12(out: &mut Out, rng: &mut Rng, thorough: bool) {
         let total = 9usize.pow(depth as u32);
         for code in 0..total {
             // all histories of length `depth` (shorter ones appear as prefixes ending in good exchanges)
-            let unit = rng.u8();
+            let unit = rng.unit();
             let mut line = format!("cli {kind} {}", hex8(unit));
             let mut c = code;
             for step in 0..depth {
@@ -688,7 +688,7 @@ pub fn mon_c12(out: &mut Out, l: &str, r: &str) {
 /// the next request, of another length, must then be delivered intact
 pub fn gen_c05_after_reject(out: &mut Out, rng: &mut Rng, thorough: bool) {
     for _ in 0..(if thorough { 3000 } else { 300 }) {
-        let unit = rng.u8();
+        let unit = rng.unit();
         let n = rng.range(1, 30);
         let mut bad = frame("tcp", 0, unit, &spec::response_bytes(&Response::ReadHoldingRegisters(rng.words(n))).unwrap());
         match rng.below(3) {
@@ -793,7 +793,7 @@ pub fn gen_c13(out: &mut Out, rng: &mut Rng, thorough: bool) {
             let Some(rspb) = spec::response_bytes(&rsp) else { continue };
             (kind, req, rspb)
         };
-        let unit = rng.u8();
+        let unit = rng.unit();
         let reqb = spec::request_bytes(&req).unwrap();
         if rspb.len() > 60 {
             continue;
@@ -891,7 +891,7 @@ pub fn gen_c13(out: &mut Out, rng: &mut Rng, thorough: bool) {
 pub fn gen_c13_second_send(out: &mut Out, rng: &mut Rng, thorough: bool) {
     for i in 0..(if thorough { 6000 } else { 400 }) {
         let kind = if i % 2 == 0 { "tcp" } else { "rtu" };
-        let unit = rng.u8();
+        let unit = rng.unit();
         let req1 = loop {
             let hint = rng.below(5);
             let r = gen_request(rng, Some(hint));
@@ -1062,7 +1062,7 @@ pub fn gen_c15(out: &mut Out, rng: &mut Rng, thorough: bool) {
                                 tid = tid.wrapping_add(1);
                             }
                             1 => {
-                                unit = rng.u8();
+                                unit = rng.unit();
                                 line.push_str(&format!(" | slave {}", hex8(unit)));
                             }
                             _ => {
@@ -1110,7 +1110,7 @@ pub fn gen_c15_after_outcome(out: &mut Out, rng: &mut Rng, thorough: bool) {
     let kinds = ["xnc", "xbp", "xid", "xii", "xue", "xto", "xwz", "xot", "xk1", "xk4"];
     for i in 0..(if thorough { 4000 } else { 500 }) {
         let kind = if i % 2 == 0 { "tcp" } else { "rtu" };
-        let unit = rng.u8();
+        let unit = rng.unit();
         let good = frame(kind, 0, unit, &[0x03, 0x02, 0x12, 0x34]);
         let k = *rng.pick(&kinds);
         let cut = rng.range(1, good.len());
@@ -1188,7 +1188,7 @@ pub fn gen_c16(out: &mut Out, rng: &mut Rng, thorough: bool) {
     let patterns = if thorough { 120 } else { 30 };
     for si in 0..shapes {
         let kind = if si % 2 == 0 { "tcp" } else { "rtu" };
-        let unit = rng.u8();
+        let unit = rng.unit();
         let req1 = loop {
             let hint = rng.below(5);
             let r = gen_request(rng, Some(hint));
@@ -1260,7 +1260,7 @@ pub fn gen_c16(out: &mut Out, rng: &mut Rng, thorough: bool) {
 pub fn gen_c16_partial(out: &mut Out, rng: &mut Rng, thorough: bool) {
     for i in 0..(if thorough { 4000 } else { 400 }) {
         let kind = if i % 2 == 0 { "tcp" } else { "rtu" };
-        let unit = rng.u8();
+        let unit = rng.unit();
         let n = rng.range(2, 20);
         let reply1 = frame(kind, 0, unit, &spec::response_bytes(&Response::ReadHoldingRegisters(rng.words(n))).unwrap());
         let k = rng.range(1, reply1.len() - 1);
@@ -1335,7 +1335,7 @@ pub fn gen_c20(out: &mut Out, rng: &mut Rng, thorough: bool) {
     let reps = if thorough { 40 } else { 2 };
     for _ in 0..reps {
         for kind in ["tcp", "rtu"] {
-            let unit = rng.u8();
+            let unit = rng.unit();
             let head = format!("cli {kind} {}", hex8(unit));
             // reads: item counts 0..2*cnt (bits: whole bytes), all five methods
             for cnt in [0u16, 1, 2, 7, 8, 9, 15, 16, 17, 60] {
@@ -1656,7 +1656,7 @@ pub fn gen_c02(out: &mut Out, rng: &mut Rng, thorough: bool) {
     let n = if thorough { 60_000 } else { 3_000 };
     for i in 0..n {
         let kind = if i % 2 == 0 { "tcp" } else { "rtu" };
-        let unit = rng.u8();
+        let unit = rng.unit();
         let req = c01_request(rng, kind);
         let reqf = frame(kind, 0, unit, &spec::request_bytes(&req).unwrap());
         let svc = if rng.chance(1, 4) {
@@ -1691,7 +1691,7 @@ pub fn gen_c02(out: &mut Out, rng: &mut Rng, thorough: bool) {
     }
     // every variable-size response at and just below the PDU limit (253 bytes), both framings
     for kind in ["tcp", "rtu"] {
-        let unit = rng.u8();
+        let unit = rng.unit();
         let mut cases: Vec<(Request<'static>, Response)> = vec![];
         for bits in [1999usize, 2000, 2001, 2007, 2008] {
             cases.push((Request::ReadCoils(0, 2000), Response::ReadCoils(rng.bits(bits))));
